@@ -4,6 +4,7 @@ import Proofs.RegLine
 import Proofs.RegClassify
 import Proofs.Accounting
 import Props.C01
+import Props.C09
 /-!
 C10 — property theorems.
 
@@ -189,6 +190,163 @@ theorem text_positional (items : List (RegDef × List Val))
       simp only [h1, pure]
   obtain ⟨ws, h1, h2⟩ := hws
   obtain ⟨obs, h3, h4, h5⟩ := readAll_text items ws h2 ⟨ws.flatMap textOf, 0⟩ (by simp [Stream.rest])
+  refine ⟨obs, by simp only [run, h1]; exact h3, ?_⟩
+  simp only [Spec.C10.holds, h4, beq_self_eq_true, Bool.true_and]
+  exact h5
+
+end Props.C10
+
+/-! ### binary storage -/
+namespace Props.C10
+open Cfi Cfi.Text Cfi.Bin Spec.C10 Props.C09
+
+theorem contiguous_facts (pos : Nat) (fs : List Field) (h : contiguous.go pos fs = true) :
+    Cfi.Disjoint fs ∧ (∀ f ∈ fs, pos ≤ f.start) ∧
+    fs.foldl (fun m f => max m f.stop) pos = pos + (fs.map (·.size)).sum := by
+  induction fs generalizing pos with
+  | nil => exact ⟨trivial, fun f hf => by simp at hf, by simp⟩
+  | cons f fs ih =>
+    simp only [contiguous.go, Bool.and_eq_true, beq_iff_eq] at h
+    obtain ⟨⟨h1, h2⟩, h3⟩ := h
+    obtain ⟨hd, hs, hm⟩ := ih (pos + f.size) h3
+    refine ⟨⟨fun g hg => Or.inl (by have := hs g hg; omega), hd⟩, ?_, ?_⟩
+    · intro g hg
+      rcases List.mem_cons.mp hg with rfl | hg
+      · omega
+      · have := hs g hg; omega
+    · simp only [List.foldl_cons, List.map_cons, List.sum_cons]
+      have : max pos f.stop = pos + f.size := by omega
+      rw [this, hm]; omega
+
+structure ItemBin (r : RegDef) (data : List Val) : Prop where
+  hcont : contiguous r = true
+  hid : r.ident.length ≤ r.digits
+  hascii : ∀ c ∈ r.ident, c.toNat < 128
+  hlen : r.fields.length = data.length
+  hne : RegDef.isEmpty data = false
+  hlaw : ∀ fv ∈ r.fields.zip data, BinLaw fv.1 fv.2
+
+/-- **One register in binary storage**: identifier width plus field widths bytes,
+the identifier left-justified in the identifier bytes, recognised by its own
+type, read back to the canonical data. -/
+theorem item_bin (r : RegDef) (data : List Val) (h : ItemBin r data) :
+    ∃ out, r.writeData .binary data = .ok (some (.bytes out)) ∧ out.length = r.recordSize ∧
+      shapeOk r .binary (.bytes out) = true ∧ r.matchesBin out = .ok true ∧
+      r.readDataBin out = .ok (canonData r .binary data (.bytes out)) := by
+  obtain ⟨hcont, hid, hascii, hlen, hne, hlaw⟩ := h
+  obtain ⟨hdis, hstart, hmax⟩ := contiguous_facts r.digits r.fields hcont
+  have hD : Cfi.Disjoint (r.idField :: r.fields) := by
+    refine ⟨fun g hg => Or.inl ?_, hdis⟩
+    have := hstart g hg
+    simpa [RegDef.idField, Field.mk'] using this
+  have hlen' : (r.idField :: r.fields).length = (Val.str r.ident :: data).length := by simp [hlen]
+  have hlawF : ∀ fv ∈ (r.idField :: r.fields).zip (Val.str r.ident :: data), BinLaw fv.1 fv.2 := by
+    intro fv hfv
+    simp only [List.zip_cons_cons, List.mem_cons] at hfv
+    rcases hfv with rfl | hfv
+    · exact binLaw_lit r.idField r.ident rfl (by simp [RegDef.idField, Field.mk']) hascii
+        (by simpa [RegDef.idField, Field.mk'] using hid)
+    · exact hlaw fv hfv
+  obtain ⟨out, rs, hw, hl, _, hr, hspans, hread⟩ := line_facts _ _ hlen' hD hlawF
+  have hsize : out.length = r.recordSize := by
+    rw [hl, recordSize_eq]
+    simp only [Spec.C02.maxEnd, List.foldl_cons, RegDef.idField, Field.mk']
+    have : max 0 (r.digits + 0) = r.digits := by omega
+    rw [this, hmax]
+  -- the identifier bytes
+  have hidb : out.take r.digits = utf8Encode (ljust r.ident r.digits ' ') := by
+    simp only [List.zip_cons_cons] at hr
+    cases hr with
+    | cons ha _ =>
+      cases hspans with
+      | cons hb _ =>
+        have h1 : renderBin r.idField (.str r.ident) = .ok (utf8Encode (ljust r.ident r.digits ' ')) := by
+          simp [renderBin, RegDef.idField, Field.mk', Val.isNull]
+        have := ha.1
+        rw [h1] at this
+        injection this with this
+        rw [this, ← hb]
+        simp [slice, RegDef.idField, Field.mk']
+  have hpad : ∀ c ∈ ljust r.ident r.digits ' ', c.toNat < 128 := by
+    intro c hc
+    simp only [ljust, List.mem_append, List.mem_replicate] at hc
+    rcases hc with hc | hc
+    · exact hascii c hc
+    · rw [hc.2]; decide
+  refine ⟨out, ?_, hsize, ?_, ?_, ?_⟩
+  · simp only [RegDef.writeData, hne, Bool.false_eq_true, if_false, RegDef.line, Line.write]
+    rw [assign_full _ _ (by simp [hlen])]
+    simp [hw, Except.map]
+  · simp only [shapeOk, Bool.and_eq_true, beq_iff_eq]
+    exact ⟨by rw [hsize, recordSize_eq], hidb⟩
+  · simp only [RegDef.matchesBin, hidb, decodeUtf8, utf8Encode_ascii _ hpad]
+    rw [utf8Decode_ascii _ hpad _ (by simp)]
+    simp [isInfix_ljust]
+  · simp only [RegDef.readDataBin, RegDef.line, Line.read, Except.map]
+    have : readBinLine (r.idField :: r.fields) out = readBinLine (r.idField :: r.fields) out := rfl
+    rw [hread]
+    simp [canonData]
+
+end Props.C10
+
+namespace Props.C10
+open Cfi Cfi.Text Cfi.Bin Spec.C10 Props.C09
+
+/-- `read(n)` on a buffer positioned at a record of exactly `n` bytes returns that
+record and leaves the stream at its end -/
+theorem read_record (s : Stream UInt8) (b rest : List UInt8) (hr : s.rest = b ++ rest) :
+    (s.read b.length).1 = b ∧ (s.read b.length).2.pos = s.pos + b.length ∧ (s.read b.length).2.rest = rest := by
+  have h1 : (s.read b.length).1 = b := by simp [Stream.read, hr]
+  have hacc := accounts_read s b.length
+  refine ⟨h1, by rw [hacc.pos, h1], ?_⟩
+  have := hacc.rest
+  rw [h1, hr] at this
+  exact (List.append_cancel_left this).symm
+
+def WrittenBin (item : RegDef × List Val) (w : Data) : Prop :=
+  ∃ out, w = .bytes out ∧ out.length = item.1.recordSize ∧
+    shapeOk item.1 .binary w = true ∧ item.1.matchesBin out = .ok true ∧
+    item.1.readDataBin out = .ok (canonData item.1 .binary item.2 w)
+
+theorem readAll_bin (items : List (RegDef × List Val)) (ws : List Data)
+    (hw : All2 WrittenBin items ws) (s : Stream UInt8) (hrest : s.rest = ws.flatMap bytesOf) :
+    ∃ obs, readAllBin s.pos s items ws = some obs ∧ obs.length = items.length ∧
+      Spec.C10.holds.go .binary s.pos items obs = true := by
+  induction hw generalizing s with
+  | nil => exact ⟨[], rfl, rfl, rfl⟩
+  | @cons item w items ws h1 _ ih =>
+    obtain ⟨out, hwe, hsz, hshape, hmatch, hread⟩ := h1
+    obtain ⟨r, data⟩ := item
+    subst hwe
+    have hrest' : s.rest = out ++ ws.flatMap bytesOf := by
+      rw [hrest]; simp [List.flatMap_cons, bytesOf]
+    have hsz' : r.recordSize = out.length := hsz.symm
+    obtain ⟨hb, hp, hr'⟩ := read_record s out _ hrest'
+    have hn : dataLen (Data.bytes out) = out.length := rfl
+    obtain ⟨obs, ho, hlen, hgo⟩ := ih (s.read out.length).2 hr'
+    rw [hp] at ho hgo
+    refine ⟨⟨.bytes out, s.pos + out.length, true,
+      canonData r .binary data (.bytes out), s.pos + out.length⟩ :: obs, ?_, by simp [hlen], ?_⟩
+    · simp only [readAllBin, hn, hsz', hb, hread, Except.toOption, ho, bytesOf, hmatch, hp]
+    · simp only [Spec.C10.holds.go, hshape, hn, beq_self_eq_true, Bool.true_and, Bool.and_true, hgo]
+
+/-- **C10, binary storage, for every stream of registers**: each record is
+identifier width plus field widths bytes, is recognised, reads back to the
+canonical data, and every read consumes exactly the bytes its write produced —
+consecutive records stay aligned. -/
+theorem binary (items : List (RegDef × List Val)) (h : ∀ item ∈ items, ItemBin item.1 item.2) :
+    ∃ obs, run .binary items = some obs ∧ Spec.C10.holds .binary items obs = true := by
+  have hws : ∃ ws, writeAll .binary items = some ws ∧ All2 WrittenBin items ws := by
+    induction items with
+    | nil => exact ⟨[], rfl, .nil⟩
+    | cons item items ih =>
+      obtain ⟨ws, h1, h2⟩ := ih (fun it hit => h it (by simp [hit]))
+      obtain ⟨out, hw, hsz, hshape, hmatch, hread⟩ := item_bin item.1 item.2 (h item (by simp))
+      refine ⟨.bytes out :: ws, ?_, .cons ⟨out, rfl, hsz, hshape, hmatch, hread⟩ h2⟩
+      simp only [writeAll, List.mapM_cons, hw, bind, Option.bind] at h1 ⊢
+      simp only [h1, pure]
+  obtain ⟨ws, h1, h2⟩ := hws
+  obtain ⟨obs, h3, h4, h5⟩ := readAll_bin items ws h2 ⟨ws.flatMap bytesOf, 0⟩ (by simp [Stream.rest])
   refine ⟨obs, by simp only [run, h1]; exact h3, ?_⟩
   simp only [Spec.C10.holds, h4, beq_self_eq_true, Bool.true_and]
   exact h5
